@@ -8,7 +8,8 @@ exception inside ``with conn.begin()``, IntegrityError then close, per-connectio
 isolation level SERIALIZABLE / READ UNCOMMITTED / AUTOCOMMIT, abandoned savepoint,
 dropping the Connection without close + gc, detach, invalidate (hard / soft), DBAPI-level
 work through ``engine.raw_connection()`` or ``conn.connection.cursor()`` that the
-SQLAlchemy transaction never saw ...) and gives it back.  Configurations: QueuePool
+SQLAlchemy transaction never saw, a COMMIT that fails on a deferred foreign key (then close /
+rollback + close / inside engine.begin() / through an ORM Session) ...) and gives it back.  Configurations: QueuePool
 (size 1-2, FIFO/LIFO), SingletonThreadPool, StaticPool, AssertionPool, NullPool x
 reset_on_return in {rollback, commit, None} x ``reset`` event listener present / absent x
 engine level isolation (default, READ UNCOMMITTED, AUTOCOMMIT).
@@ -41,14 +42,14 @@ META = {
     "id": "C24",
     "level": "exploration",
     "technique": "pool checkout-event monitor reading the raw DBAPI connection (spy ledger) + independent observer connection, over generated histories of state-leaving users x pool class x reset_on_return",
-    "level_text": "Seeded histories (3-9 users each) over 24 user behaviours x 5 pool classes x 3 reset modes x reset-listener x 3 engine isolation settings; every hand-out of a previously used raw connection is judged at the checkout event itself against the backend-visible state (in_transaction, uncommitted rows, committed rows, isolation level / autocommit attribute).",
+    "level_text": "Seeded histories (3-9 users each) over 29 user behaviours x 5 pool classes x 3 reset modes x reset-listener x 3 engine isolation settings; every hand-out of a previously used raw connection is judged at the checkout event itself against the backend-visible state (in_transaction, uncommitted rows, committed rows, isolation level / autocommit attribute).",
     "level_note": "SQLite only (PostgreSQL / MariaDB have no server here): 'isolation level' is PRAGMA read_uncommitted plus the sqlite3 isolation_level attribute that implements AUTOCOMMIT. Single-threaded histories (concurrency is C25's subject); overlapping holders only on QueuePool(size 2).",
     "design_ref": "DESIGN.md section 4, C24",
     "rule": "case = (configuration, list of user behaviours); non-trivial = at least one hand-out of a raw connection that an earlier user had left dirty (open transaction / changed isolation / DBAPI-level work) was judged; distinct by (config, behaviours)",
     "shards": {"quick": 8, "thorough": 16},
     "soft_s": {"quick": 150, "thorough": 800},
     "require": ["judged_checkouts", "judged_after_dirty_user", "fresh_checkouts", "reset_rollbacks_seen",
-                "isolation_changes_seen", "gc_finalized_users", "vacuous_checkouts", "exec_option_checks"],
+                "isolation_changes_seen", "gc_finalized_users", "vacuous_checkouts", "exec_option_checks", "failed_commits"],
     "assumptions": ["sqlite3.Connection.in_transaction reports the backend transaction state",
                     "a fresh connection's state is the engine default"],
 }
@@ -58,12 +59,15 @@ ACTIONS = [
     "iso_serializable", "iso_read_uncommitted", "iso_autocommit", "iso_autocommit_leave", "iso_ru_leave_open",
     "iso_then_error", "gc_drop", "gc_drop_iso", "gc_drop_clean", "detach", "invalidate", "soft_invalidate",
     "iso_invalidate", "raw_leave_open", "raw_commit", "raw_via_conn", "exec_options_only", "begin_leave",
+    "commit_fails_close", "commit_fails_rollback_close", "commit_fails_in_engine_begin", "session_commit_fails",
 ]
+FAILED_COMMIT = {"commit_fails_close", "commit_fails_rollback_close", "commit_fails_in_engine_begin",
+                 "session_commit_fails"}
 DIRTY = {
     "leave_open", "raise_in_begin", "integrity_error", "savepoint_abandon", "iso_serializable", "iso_read_uncommitted",
     "iso_autocommit", "iso_autocommit_leave", "iso_ru_leave_open", "iso_then_error", "gc_drop", "gc_drop_iso",
     "raw_leave_open", "raw_via_conn", "begin_leave",
-}
+} | FAILED_COMMIT
 
 
 class Monitor:
@@ -124,6 +128,9 @@ class Monitor:
     def fail(self, what, prev, text):
         self.failed = True
         env = self.env
+        if prev in FAILED_COMMIT and what in ("open-transaction-at-checkout", "uncommitted-writes-at-checkout"):
+            # one defect whatever the user did after the commit failed
+            what, prev = "open-transaction-after-failed-commit", None
         self.ctx.violation(f"{what}:after-{prev}" if prev else what, f"{text} :: config={env.config} users={env.users_done + [self.current]}",
                            {"config": env.config, "users": env.users_done + [self.current], "previous_user": prev,
                             "dbapi_tail": [(e.kind, e.conn, e.get("sql") or e.get("name"), e.get("value"))
@@ -157,6 +164,10 @@ class Env:
         self.sure, self.maybe = set(), set()
         self.users_done = []
         self.mon = Monitor(ctx, self)
+        def fk_on(dbapi_conn, rec):
+            dbapi_conn.raw.execute("PRAGMA foreign_keys=ON")     # deferred FK makes commit() itself fail
+        sa.event.listen(self.eng, "connect", fk_on)
+        self.child = sa.table("ch", sa.column("id"), sa.column("pid"))
         sa.event.listen(self.eng, "checkout", self.mon.at_checkout)
         if config["reset_listener"]:
             def on_reset(dbapi_conn, rec, state):
@@ -342,6 +353,41 @@ def run_user(env, action, rng):
         elif commit_reset:
             env.maybe.add(i)
         c.close()
+    elif action in FAILED_COMMIT:
+        # a row whose deferred foreign key is violated: the INSERT succeeds, COMMIT fails
+        # (under AUTOCOMMIT the statement itself fails) and the transaction stays open
+        bad = env.child.insert().values(id=i, pid=-i)
+        if action == "commit_fails_in_engine_begin":
+            try:
+                with eng.begin() as c:
+                    ins(c, i)
+                    c.execute(bad)
+            except sa.exc.IntegrityError:
+                env.ctx.count("failed_commits")
+        elif action == "session_commit_fails":
+            from sqlalchemy.orm import Session
+
+            s = Session(eng)
+            try:
+                s.execute(t.insert().values(id=i))
+                s.execute(bad)
+                s.commit()
+            except sa.exc.IntegrityError:
+                env.ctx.count("failed_commits")
+            s.close()
+        else:
+            c = eng.connect()
+            try:
+                ins(c, i)
+                c.execute(bad)
+                c.commit()
+            except sa.exc.IntegrityError:
+                env.ctx.count("failed_commits")
+            if action == "commit_fails_rollback_close":
+                c.rollback()
+            c.close()
+        if ac:
+            env.sure.add(i)
     elif action == "exec_options_only":
         c = eng.connect().execution_options(stream_results=True, logging_token="u%d" % i, yield_per=3)
         c.execute(sa.select(t.c.id)).all()
@@ -353,6 +399,7 @@ def run_user(env, action, rng):
 def run_history(ctx, path, obs, config, actions):
     rng = ctx.rng
     obs.execute("DELETE FROM t")
+    obs.execute("DELETE FROM ch")
     env = Env(ctx, path, obs, config)
     eng = env.eng
     try:
@@ -374,7 +421,11 @@ def run_history(ctx, path, obs, config, actions):
                     b.close()
                     env.sure.add(ib)
                 else:
-                    run_user(env, action, rng)
+                    try:
+                        run_user(env, action, rng)
+                    except Exception:
+                        if not env.mon.failed:      # already reported at the checkout: its consequence
+                            raise
                 env.users_done.append(action)
                 if env.mon.failed:
                     break
@@ -411,6 +462,8 @@ def run(ctx):
     path = ctx.tmppath(".db")
     c = sqlite3.connect(path)
     c.execute("CREATE TABLE t (id INTEGER PRIMARY KEY)")
+    c.execute("CREATE TABLE p (id INTEGER PRIMARY KEY)")
+    c.execute("CREATE TABLE ch (id INTEGER PRIMARY KEY, pid INTEGER REFERENCES p(id) DEFERRABLE INITIALLY DEFERRED)")
     c.commit()
     c.close()
     obs = observer(path)
@@ -429,7 +482,7 @@ def run(ctx):
                 "engine_iso": rng.choice([None, None, None, "READ UNCOMMITTED", "AUTOCOMMIT"]),
             }
             n = rng.randint(3, 9)
-            acts = ACTIONS if config["reset"] is not None else [a for a in ACTIONS if a not in ("detach",)]
+            acts = ACTIONS if config["reset"] is not None else [a for a in ACTIONS if a not in ("detach",) and a not in FAILED_COMMIT]
             actions = [rng.choice(acts) for _ in range(n)]
             # a clean user after the dirty ones, so the last dirty state is looked at too
             actions.append(rng.choice(["nothing", "commit"]))
